@@ -56,7 +56,15 @@ func filler(seed int64) []byte {
 
 func content(fill []byte, l, variant int) []byte {
 	off := (variant*1009 + l%977) % 4096
-	return fill[off : off+l]
+	if l <= 70000 {
+		return fill[off : off+l]
+	}
+	// the few values longer than the filler buffer (thorough tier) tile it
+	b := make([]byte, l)
+	for i := 0; i < l; i += 70000 {
+		copy(b[i:], fill[off:off+70000])
+	}
+	return b
 }
 
 // ---- part A: length rule vs value decoder -----------------------------------------
@@ -149,8 +157,24 @@ func enumA(seed int64, f func(CaseA)) {
 	}
 }
 
+// bigA are the lengths that set the most significant byte of a 3- and 4-byte
+// prefix (thorough tier, executed one at a time to bound memory).
+func bigA(seed int64) []CaseA {
+	var out []CaseA
+	for _, fam := range []string{"blob", "geometry", "json"} {
+		out = append(out,
+			CaseA{Family: fam, A: 3, Len: 1<<24 - 1, Lead: true, Seed: seed},
+			CaseA{Family: fam, A: 4, Len: 1 << 24, Lead: false, Seed: seed},
+			CaseA{Family: fam, A: 4, Len: 1<<24 + 1, Lead: true, Seed: seed})
+	}
+	return out
+}
+
 // columnA returns the column under test and its cell for row variant v.
 func columnA(c CaseA, fill []byte, v int) (ref.Column, ref.Cell) {
+	if v == 1 && c.Len > 1024 {
+		c.Len = 2 // the second row of a long value is short: it only has to be found at the right offset
+	}
 	switch c.Family {
 	case "varchar":
 		return ref.ColVarchar("x", c.A), ref.VVarchar(c.A, content(fill, c.Len, v))
@@ -478,19 +502,15 @@ func allWireCfgs() []wireCfg {
 }
 
 // coverWireCfgs is a covering subset: every value of every wire coordinate
-// occurs, and every pair (version/extra, id width) and (version/extra, crc).
+// occurs, and every pair (id width, checksum).
 func coverWireCfgs() []wireCfg {
 	return []wireCfg{
 		{V2: false, ID6: false, CRC: false},
 		{V2: false, ID6: true, CRC: true},
 		{V2: true, Extra: 0, ID6: true, CRC: false},
-		{V2: true, Extra: 0, ID6: false, CRC: true},
-		{V2: true, Extra: 1, ID6: false, CRC: false},
-		{V2: true, Extra: 1, ID6: true, CRC: true},
-		{V2: true, Extra: 8, ID6: true, CRC: false},
-		{V2: true, Extra: 8, ID6: false, CRC: true},
+		{V2: true, Extra: 1, ID6: false, CRC: true},
+		{V2: true, Extra: 8, ID6: true, CRC: true},
 		{V2: true, Extra: 298, ID6: false, CRC: false},
-		{V2: true, Extra: 298, ID6: true, CRC: true},
 	}
 }
 
@@ -511,9 +531,22 @@ func (wc wireCfg) cfg(seed int64) ref.Cfg {
 // paletteCol returns column i of the shape tables and its cell for (row, image).
 const paletteLen = 29
 
+// cheapKinds are the palette entries whose decoding does not go through fmt;
+// columns beyond the first two palette cycles use only these so that the wide
+// tables (250..300 columns) stay cheap to decode. Every type is still present
+// in every table of >= 29 columns.
+var cheapKinds = []int{0, 1, 2, 3, 4, 5, 8, 9, 10, 11, 16, 17, 20, 26, 27, 28, 12}
+
+func kindOf(i int) int {
+	if i < 2*paletteLen {
+		return i % paletteLen
+	}
+	return cheapKinds[(i-2*paletteLen)%len(cheapKinds)]
+}
+
 func paletteCol(i int) ref.Column {
 	name := fmt.Sprintf("c%d", i)
-	switch i % paletteLen {
+	switch kindOf(i) {
 	case 0:
 		return ref.ColInt(ref.TTiny, name, false)
 	case 1:
@@ -580,7 +613,7 @@ func paletteCell(i, row, img int, fill []byte) ref.Cell {
 	v := row*2 + img
 	l := smallLens[(i/paletteLen+i+3*row+img)%len(smallLens)]
 	s := content(fill, l, i+v)
-	switch i % paletteLen {
+	switch kindOf(i) {
 	case 0:
 		return ref.VInt(ref.TTiny, int64(i%100-50+v), false)
 	case 1:
@@ -829,10 +862,10 @@ func combos(n int) []combo {
 func partners(n int) []combo {
 	cand := []struct{ P, N Pat }{
 		{Pat{K: "all"}, Pat{K: "none"}},
-		{Pat{K: "all"}, Pat{K: "alt", I: 0}},
 		{Pat{K: "none"}, Pat{K: "none"}},
-		{Pat{K: "alt", I: 1}, Pat{K: "all"}},
 		{Pat{K: "prefix", I: 9}, Pat{K: "one", I: 8}},
+		{Pat{K: "all"}, Pat{K: "alt", I: 0}},
+		{Pat{K: "alt", I: 1}, Pat{K: "all"}},
 		{Pat{K: "one", I: n - 1}, Pat{K: "none"}},
 	}
 	ps := pset(n)
@@ -855,19 +888,37 @@ func partners(n int) []combo {
 	return out
 }
 
+// plan is the part of the part B space enumerated for one column count.
+type plan struct {
+	wcs       []wireCfg // wire configurations
+	fullRows  []int     // row counts (>= 1) enumerated with every (presence, NULL) combination
+	lightRows []int     // row counts (>= 1) enumerated with the partner images only
+	partners  int       // number of partner images an update image is paired with (n > 4)
+}
+
+func planFor(n int, thorough bool) plan {
+	switch {
+	case thorough:
+		return plan{wcs: allWireCfgs(), fullRows: []int{1, 2, 3}, partners: 6}
+	case n <= 17:
+		return plan{wcs: allWireCfgs(), fullRows: []int{1, 2, 3}, partners: 6}
+	}
+	return plan{wcs: coverWireCfgs(), fullRows: []int{2}, lightRows: []int{1, 3}, partners: 3}
+}
+
 // enumB calls f for every case of part B with the given column counts.
-// full(n) tells whether the full wire-configuration product is used for n.
-func enumB(seed int64, counts []int, full func(n int) bool, f func(CaseB)) {
+func enumB(seed int64, counts []int, thorough bool, f func(CaseB)) {
 	none := Pat{K: "none"}
 	for _, n := range counts {
+		pl := planFor(n, thorough)
 		ps := pset(n)
 		cs := combos(n)
 		pt := partners(n)
-		wcs := coverWireCfgs()
-		if full(n) {
-			wcs = allWireCfgs()
+		if len(pt) > pl.partners {
+			pt = pt[:pl.partners]
 		}
-		for _, wc := range wcs {
+		ptAll := partners(n)
+		for _, wc := range pl.wcs {
 			base := CaseB{N: n, V2: wc.V2, Extra: wc.Extra, ID6: wc.ID6, CRC: wc.CRC, Seed: seed, PB: none, PA: none, NB: none, NA: none}
 			// ---- zero rows: only the presence bitmaps matter
 			c := base
@@ -900,10 +951,10 @@ func enumB(seed int64, counts []int, full func(n int) bool, f func(CaseB)) {
 				}
 			}
 			// ---- 1..3 rows
-			for rows := 1; rows <= 3; rows++ {
+			rowsOf := func(rows int, images []combo, others []combo, product bool) {
 				c := base
 				c.Rows = rows
-				for _, x := range cs {
+				for _, x := range images {
 					if ps.pop[x.p] == 0 {
 						continue // a row without present columns occupies zero bytes (see assumptions)
 					}
@@ -922,25 +973,31 @@ func enumB(seed int64, counts []int, full func(n int) bool, f func(CaseB)) {
 					c.PA, c.NA = y.pats(n)
 					f(c)
 				}
-				if n <= 4 {
-					for _, x := range cs {
-						for _, y := range cs {
+				if product {
+					for _, x := range images {
+						for _, y := range images {
 							emit(x, y)
 						}
 					}
-				} else {
-					seen := map[[2]combo]bool{}
-					for _, x := range cs {
-						for _, y := range pt {
-							for _, k := range [][2]combo{{x, y}, {y, x}} {
-								if !seen[k] {
-									seen[k] = true
-									emit(k[0], k[1])
-								}
+					return
+				}
+				seen := map[[2]combo]bool{}
+				for _, x := range images {
+					for _, y := range others {
+						for _, k := range [][2]combo{{x, y}, {y, x}} {
+							if !seen[k] {
+								seen[k] = true
+								emit(k[0], k[1])
 							}
 						}
 					}
 				}
+			}
+			for _, rows := range pl.fullRows {
+				rowsOf(rows, cs, pt, n <= 4)
+			}
+			for _, rows := range pl.lightRows {
+				rowsOf(rows, ptAll, ptAll, true)
 			}
 		}
 	}
@@ -953,8 +1010,18 @@ var columnCounts = []int{1, 2, 3, 4, 7, 8, 9, 16, 17, 64, 250, 251, 300}
 func run(r *chk.Run) {
 	seed := r.Seed
 	filler(seed)
+	if why := rowdec.SelfTest(); why != "" {
+		chk.Fatalf("%s", why)
+	}
 	var evalsA, evalsB, nontrivB atomic.Int64
 	var stop atomic.Bool
+	guard := rowdec.NewGuard(r.Workers(), guardLimit, func(running []interface{}) {
+		for _, c := range running {
+			reportRunaway(r, c)
+		}
+		r.Finish()
+	})
+	defer guard.Stop()
 
 	// ---- part A ----
 	t0 := time.Now()
@@ -973,7 +1040,9 @@ func run(r *chk.Run) {
 				stop.Store(true)
 				return
 			}
+			guard.Enter(shard, c)
 			m, ev := evalA(c)
+			guard.Leave(shard)
 			e++
 			fam[c.Family]++
 			if m.Bad() {
@@ -987,6 +1056,18 @@ func run(r *chk.Run) {
 		}
 		famMu.Unlock()
 	})
+	if r.Thorough() && !stop.Load() && os.Getenv("C09_ONLY") != "B" {
+		for _, c := range bigA(seed) {
+			guard.Enter(0, c)
+			m, ev := evalA(c)
+			guard.Leave(0)
+			evalsA.Add(1)
+			famCount[c.Family]++
+			if m.Bad() {
+				reportA(r, c, m, ev)
+			}
+		}
+	}
 	for _, c := range []CaseA{
 		{Family: "varchar", A: 255, Len: 255, Lead: true, Seed: seed},
 		{Family: "varchar", A: 256, Len: 256, Lead: false, Seed: seed},
@@ -996,17 +1077,16 @@ func run(r *chk.Run) {
 	}
 	r.Set("partA_cases_by_family", famCount)
 	r.Set("partA_wall_s", time.Since(t0).Seconds())
-	r.Set("partA", "VARCHAR max 0..65535 (all), VAR_STRING 10 boundary maxima, CHAR/BINARY 0..1023 (all 1024 metadata words), ENUM 1..2, SET 1..8, NEWDECIMAL all 1580 (p,s), TIMESTAMP2/DATETIME2/TIME2 fsp 0..6, BIT 1..64, BLOB/GEOMETRY/JSON length bytes 1..4, 12 fixed-width types; x actual lengths {0,1,255,256,max (<=70000)} x {cell first, cell after a TINY}; 2-row WRITE event each")
+	r.Set("partA", "VARCHAR max 0..65535 (all), VAR_STRING 10 boundary maxima, CHAR/BINARY 0..1023 (all 1024 metadata words), ENUM 1..2, SET 1..8, NEWDECIMAL all 1580 (p,s), TIMESTAMP2/DATETIME2/TIME2 fsp 0..6, BIT 1..64, BLOB/GEOMETRY/JSON length bytes 1..4, 12 fixed-width types; x actual lengths {0,1,255,256,max (<=70000)} x {cell first, cell after a TINY}; 2-row WRITE event each; thorough adds BLOB/GEOMETRY/JSON values of 2^24-1 (3 length bytes), 2^24 and 2^24+1 bytes (4 length bytes)")
 
 	// ---- part B ----
-	full := func(n int) bool { return r.Thorough() || n <= 17 }
 	var total atomic.Int64
 	var cut atomic.Bool
 	onlyA := os.Getenv("C09_ONLY") == "A"
 	r.Parallel(func(shard, nsh int) {
 		var e, nt int64
 		i := 0
-		enumB(seed, columnCounts, full, func(c CaseB) {
+		enumB(seed, columnCounts, r.Thorough(), func(c CaseB) {
 			i++
 			if i%nsh != shard || cut.Load() || stop.Load() || onlyA {
 				return
@@ -1021,7 +1101,9 @@ func run(r *chk.Run) {
 					return
 				}
 			}
+			guard.Enter(shard, c)
 			m, ev := evalB(c)
+			guard.Leave(shard)
 			e++
 			if c.Rows > 0 {
 				nt++
@@ -1052,11 +1134,11 @@ func run(r *chk.Run) {
 	r.Set("partB_zero_row_events", evalsB.Load()-nontrivB.Load())
 	r.Set("partB_column_counts", columnCounts)
 	if r.Thorough() {
-		r.Set("partB_wire", "full product {v1, v2 x extra-data 0/1/8/298} x table id {4,6} x checksum {off,CRC32} (20) for every column count")
+		r.Set("partB_plan", "every column count: full wire product {v1, v2 x extra-data 0/1/8/298} x table id {4,6} x checksum {off,CRC32} (20); rows 1..3 x every (presence, NULL) combination; update images paired with 6 partner images in both roles (full product for <= 4 columns)")
 	} else {
-		r.Set("partB_wire", "full product (20 configurations) for <= 17 columns; for 64..300 columns a 10-configuration cover containing every value of every coordinate and every pair with the version/extra-data coordinate")
+		r.Set("partB_plan", "<= 17 columns: as thorough. 64..300 columns: a 6-configuration cover of the wire product (every value of every coordinate, every pair of table-id width and checksum); every (presence, NULL) combination with 2 rows, the 6 partner images (full product for updates) with 1 and 3 rows; update images paired with 3 partner images in both roles")
 	}
-	r.Set("partB", "kinds {write, update, delete}; rows 0..3; presence and NULL patterns: every subset for <= 4 columns, else {all, none, alternating x2, single bit at 0, n-1 and every byte boundary +-1, leading run ending at every byte boundary +-1}; NULL patterns range over the present columns; update events: full product of both images for <= 4 columns, else every image against 6 partner images in both roles")
+	r.Set("partB", "kinds {write, update, delete}; rows 0..3; presence and NULL patterns: every subset for <= 4 columns, else {all, none, alternating x2, single bit at 0, n-1 and every byte boundary +-1, leading run ending at every byte boundary +-1}; NULL patterns range over the present columns; partner images: (all present, no NULL), (all, alternating NULL), (none present), (alternating, all NULL), (first 9 present, NULL at value 8), (last column only); the first 3 are the quick-tier partners")
 	r.Rule("odometer enumeration; part A: one input per (type, metadata, actual length, position) - a 2-row WRITE event built by the reference encoder; part B: one input per (column count, kind, wire configuration, row count, presence patterns, NULL patterns), patterns with equal realisation listed once. Each event is decoded by NewMysql56BinlogEvent/StripChecksum/Rows with the TableMap decoded from the reference TABLE_MAP_EVENT; oracle: row count, every image byte-identical to the reference image, every NULL bit, presence bitmaps (Count, Bit, BitCount), and the streamer's column walk with CellBytes consumes every cell and every image exactly. distinct_nontrivial counts events with >= 1 row")
 	r.Assume("an event whose images contain no present column is generated with zero rows only: such a row occupies zero bytes, so no row count is encoded")
 	r.Assume("types never written to a table map by a server are excluded: DECIMAL(0), NULL(6), NEWDATE(14), bare ENUM(247)/SET(248) (logged as STRING with the real type in the metadata), TINY/MEDIUM/LONG_BLOB(249..251, logged as BLOB with length bytes 1..4)")
@@ -1065,7 +1147,28 @@ func run(r *chk.Run) {
 	r.SetExhaustive(true)
 }
 
+// guardLimit is the heap size no legal input of this check approaches (the
+// largest event has 140 KB); see rowdec.Guard.
+const guardLimit = 8 << 30
+
+const runawayWhy = "the decode does not terminate: Rows() allocates without bound (heap above 8 GiB while this event was being decoded)"
+
+func reportRunaway(r *chk.Run, c interface{}) {
+	switch c := c.(type) {
+	case CaseA:
+		r.Report(chk.Violation{Key: keyA(c) + ":runaway", What: describeA(c) + ": " + runawayWhy, Kind: "A", Replay: c})
+	case CaseB:
+		r.Report(chk.Violation{Key: keyB(c) + ":runaway", What: describeB(c) + ": " + runawayWhy, Kind: "B", Replay: c})
+	}
+}
+
 func replay(kind string, input json.RawMessage) (bool, string) {
+	guard := rowdec.NewGuard(1, guardLimit, func([]interface{}) {
+		fmt.Printf("replay C09 kind=%s\n%s\n%s\nVIOLATION property=C09 replay=(this file)\n", kind, string(input), runawayWhy)
+		os.Exit(1)
+	})
+	defer guard.Stop()
+	guard.Enter(0, kind)
 	switch kind {
 	case "A":
 		var c CaseA
